@@ -381,6 +381,8 @@ def binary_cross_entropy(y_pred:Tensor, y_true:Tensor):
             raise RuntimeError(f"{grad_output.device} not supported")
         
         if y_pred.requires_grad: y_pred._grad += loss_grad_data
+        if y_true.requires_grad: # d/dt of -(t*log(p) + (1-t)*log(1-p))
+            y_true._grad += grad_output.data * (np.log(1 - y_pred.data + cpu_ops.epsilon) - np.log(y_pred.data + cpu_ops.epsilon))
     
     if loss.requires_grad: loss.grad_fn = BackwardFunction(backward, loss._operation)
     
@@ -420,6 +422,7 @@ def binary_cross_entropy_with_logits(y_pred:Tensor, y_true:Tensor):
             raise RuntimeError(f"{grad_output.device} not supported")
         
         if y_pred.requires_grad: y_pred._grad += loss_grad_data
+        if y_true.requires_grad: y_true._grad -= grad_output.data * y_pred.data # the loss is (1-t)*x + softplus(-x)
     
     if loss.requires_grad: loss.grad_fn = BackwardFunction(backward, loss._operation)
     
